@@ -1,6 +1,6 @@
 // C07 harness: Go's own fixed-width integer arithmetic, per type, against the forms of
-// coq/Lib/GoSem.v that the translator emits (case tag 4).  GENERATED by the script in the
-// comment of kits/C07 (python), one function per integer type; do not edit by hand.
+// coq/Lib/GoSem.v that the translator emits (case tag 4).  The per-type functions were generated
+// once by a script (one function per integer type) and are maintained by hand since.
 package aac
 
 import (
